@@ -132,6 +132,12 @@ def step_rules(ctx, m, owners):
         rec_f, snap_f, tv_f = rec_f[0], snap_f[0], tv_f[0]
         aps = [c for c in sq.calls("append_record")]
         after = lambda c: c.b not in s.body and sq.cfg.strictly_after(s.head, c.b)  # noqa: E731
+        # the recorded per-step volume is the cumulative counter: it must be reset at the start of EVERY step (an idle step with
+        # nothing queued records 0, not the previous step's volume)
+        ctx.check(len(s.resets) == 1 and not s.resets[0].guards and sq.body.dominates(s.resets[0].b, s.head), "step", tag + "|reset-every-step",
+                  s.resets[0].loc() if s.resets else ctx.loc(f), "the traded-volume counter is reset once, unconditionally, before the processing loop",
+                  "the traded-volume counter reset is %s: an idle step would record the previous step's volume again" % (
+                      "conditional on [%s]" % s.resets[0].gtext() if s.resets and s.resets[0].guards else "missing / repeated / not before the loop"))
         # the per-asset recording loop (multi-asset): read through its symbolic item, so that `enumerate().take(ASSETS)`,
         # `for asset in 0..ASSETS` and a zip over the per-asset arrays all mean "position i of every per-asset array"
         from analysis.iterelem import loop_item, rewrite, I as POS
